@@ -73,7 +73,7 @@ fn walk_pairs(pairs: pest::iterators::Pairs<'_, R>, lo: usize, hi: usize, input:
 }
 
 // ---------------------------------------------------------------- generator
-const LITS: &[&str] = &["a", "b", "ab", "ba", "é", "aé", "嗨", "c"];
+const LITS: &[&str] = &["a", "b", "ab", "ba", "é", "aé", "嗨", "c", "a", "b", "é", "\u{ffff}", "\u{f000}b", "\u{10ffff}", "\u{7ff}a", "\u{800}"];
 struct Gen { rng: Rng, nenv: usize, calls_left: usize }
 impl Gen {
     fn lit(&mut self) -> String { self.rng.pick(LITS).to_string() }
@@ -172,7 +172,8 @@ fn gen_input(rng: &mut Rng, maxlen: usize) -> String {
     let n = rng.range(0, maxlen);
     let mut s = String::new();
     // incl. characters whose low byte is an ASCII letter / control code (Ł = U+0141, ᵡ = U+1D61, 一 = U+4E00)
-    for _ in 0..n { s.push_str(*rng.pick(&["a", "b", "a", "b", "é", "嗨", "c", "A", "B", "Ł", "ᵡ", "一"][..])); }
+    // and the first / last characters of UTF-8 leading-byte classes (U+7FF, U+800, U+F000, U+FFFF, U+10FFFF)
+    for _ in 0..n { s.push_str(*rng.pick(&["a", "b", "a", "b", "é", "嗨", "c", "A", "B", "Ł", "ᵡ", "一", "a", "b", "\u{7ff}", "\u{800}", "\u{f000}", "\u{ffff}", "\u{10ffff}", "\u{fffd}"][..])); }
     s
 }
 
